@@ -53,6 +53,23 @@ Theorem bounds_eq_spec : forall c h q0 q,
 Proof. exact bounds_eq_spec_hist. Qed.
 Print Assumptions bounds_eq_spec.
 
+(* Delegations.get_delegation returns the delegation point at or above the name (with "is a
+   proper subdomain"), or nothing when there is none; Delegations.is_glue is the documented
+   "strictly beneath a delegation point". *)
+Theorem get_delegation_eq_spec : forall c h q,
+    history_ok c h ->
+    let z := exec c h in
+    match get_delegation (z_delegs z) q with
+    | (Some cut, sub) =>
+        In (ekey cut) (map ekey (delegations_of c (z_nodes z))) /\ is_subdomain q cut = true /\
+        sub = strictly_beneath q cut
+    | (None, sub) =>
+        sub = false /\ forall d0, In d0 (delegations_of c (z_nodes z)) -> is_subdomain q d0 = false
+    end /\
+    deleg_is_glue (z_delegs z) q = glue_name c (z_nodes z) q.
+Proof. exact get_delegation_eq_spec_main. Qed.
+Print Assumptions get_delegation_eq_spec.
+
 (* dns.zone._validate_name hands the version names at or beneath the apex with the zone's
    relativity, for every Name (only the last label may be empty) and every absolute origin:
    the hypothesis history_ok / validk of the theorems above holds for all real callers. *)
